@@ -108,6 +108,11 @@ func TIFFPredict(data []byte, columns, colors int) []byte {
 // yields data again. pad reports how many bytes of padding (spaces) were
 // appended to fill the last predictor row.
 func EncodeChain(data []byte, chain []FilterSpec, variant int) []byte {
+	return EncodeChainTrace(data, chain, variant, nil)
+}
+
+// EncodeChainTrace is EncodeChain that also reports every zlib stream it produces to tr.
+func EncodeChainTrace(data []byte, chain []FilterSpec, variant int, tr *Trace) []byte {
 	for i := len(chain) - 1; i >= 0; i-- {
 		f := chain[i]
 		switch f.Kind() {
@@ -123,7 +128,9 @@ func EncodeChain(data []byte, chain []FilterSpec, variant int) []byte {
 			} else if f.Predictor == 2 {
 				data = TIFFPredict(data, f.Columns, max(f.Colors, 1))
 			}
+			plain := data
 			data = Deflate(data)
+			tr.deflated(data, plain)
 		case "hex":
 			data = HexEncode(data, []int{0, 64, 7}[variant%3], variant%2 == 0)
 		case "a85":
